@@ -3,7 +3,72 @@
 import json, os
 ROOT = os.path.dirname(os.path.dirname(os.path.abspath(__file__)))
 
+S2NOTE = 'Trusted: SimBroker/sim_messaging (vf/sim.py) as the AMQP 0.9.1 contract (FIFO queues, unacked-until-acked, redelivery, mandatory returns, per-connection timers on a virtual clock), CrossHair/z3, clock/uuid/logger stubs, native json codec. The schedule variables branch in the simulated broker; symbolic failure flags / item counts / MaxConcurrency flow into the engine. Unwinding assertion on the decision vector. Outside: runs longer than the decision bound, fan-out > 2-3, the 1 s heartbeat back-stop, real RabbitMQ.'
+
 CHECKS = {
+ "C01": dict(
+   technique="bounded symbolic execution (CrossHair + z3) of the real state handlers against a reference ASL interpreter, canonical schedule",
+   text=("Selector-built machine families (every optional field of Pass/Task by presence flag and path pool, Choice/Wait/Fail/Succeed, Parallel and Map with "
+         "symbolic item count and failing invocation, a 4-state chain) are run through the real StateEngine.notify under the canonical FIFO schedule and the terminal "
+         "status and output/error name are compared with a reference interpreter written from the States Language. The solver closes every selector/leaf combination "
+         "inside the bounds or returns a counterexample that is replayed natively. The in-band 'Error' member convention is a recorded known finding."),
+   note="Trusted: vf/ref/asl_step.py, recording dispatchers, FastJson, clock/uuid stubs. Outside: other schedules (C02-C06), Retry/Catch (C07), paths outside the pool, documents deeper than 2, intrinsic functions (C13).",
+   design="4/C01"),
+ "C02": dict(
+   technique="bounded whole-run model checking of the real engine over a simulated broker with a symbolic schedule (CrossHair + z3)",
+   text=("The real StateEngine, TaskDispatcher and EventDispatcher run over SimBroker; a vector of symbolic integers chooses the next enabled action at every step and symbolic flags assign task failures. "
+         "After every step a monitor checks that each execution's notifications are a prefix of [RUNNING, terminal], the record invariants (stopDate iff terminal, output iff SUCCEEDED, error/cause iff FAILED) "
+         "and that the terminal record never changes; at quiescence every started execution has exactly one terminal notification. 'Confirmed' = every schedule of the scenario inside the decision bound."),
+   note=S2NOTE, design="4/C02"),
+ "C03": dict(
+   technique="bounded whole-run model checking over a simulated broker with a symbolic schedule (CrossHair + z3)",
+   text=("Same whole-run harness as C02 with the drain/carrier monitor: while an execution is RUNNING something carries it (queued or unacknowledged message, pending request, armed timer); no delivery is acknowledged twice; "
+         "at quiescence unacknowledged_messages, branch_metadata, pending_requests, cancellers, orphaned_responses, broker-side unacked deliveries, timers and queues are empty - for sequential, Parallel, Map, Catch and Retry scenarios with every failure assignment and every schedule inside the bound."),
+   note=S2NOTE + " The per-handler 'ack after consequences' ordering is observed on the broker op-log of these runs, not proved per handler.", design="4/C03"),
+ "C05": dict(
+   technique="bounded whole-run model checking with symbolic schedule, item count and MaxConcurrency (CrossHair + z3)",
+   text=("Parallel (2-3 branches) and Map (0..3 items, MaxConcurrency 0..n+1, both symbolic and flowing into the engine's Range arithmetic) are run under every schedule inside the bound: "
+         "output[i] is branch/item i's marker output, the state after the join is entered only after the last branch state exited, MapIterationStarted indices are exactly 0..n-1 once each and the number of in-flight iterations never exceeds MaxConcurrency."),
+   note=S2NOTE, design="4/C05"),
+ "C06": dict(
+   technique="bounded whole-run model checking with symbolic schedule and failure assignment (CrossHair + z3)",
+   text=("Parallel/Map scenarios with every failure assignment (none/one/both), with and without Catch and Retry, sibling kinds Task/Wait/Pass, under every schedule inside the bound; monitors C02+C03+C09 after every step: "
+         "one terminal notification, immutable record, nothing appended to the history after the terminal event, no sibling state entered/exited after the fan-out failed, everything drained. "
+         "Three genuine defects found here were repaired (57fdf5b, 195a6e3, ab88dc9)."),
+   note=S2NOTE, design="4/C06"),
+ "C07": dict(
+   technique="CrossHair + z3 on the real handle_error (discrete policy), symnum z3 engine on the back-off arithmetic, whole-run timing on a virtual clock",
+   text=("Per error name, retrier/catcher lists, MaxAttempts and RetryCount are symbolic selectors; the real notify -> on_response -> handle_error outcome (retry with RetryCount+1 / catch to Next with the Error Output placed by ResultPath into the original input / fail with E) must equal a reference policy. "
+         "IntervalSeconds x BackoffRate^k x 1000, the <1 clamp, EnteredTime and the re-armed deferral are decided over unbounded symbolic integers/reals by z3 (unsat on every path, cvc5 cross-check). Outcome sequences err^j,success and a retried Parallel are run on the virtual clock."),
+   note="Trusted: vf/ref/retry_policy.py, recording dispatchers, symnum (floats as exact reals), SimBroker. Outside: States.TaskFailed-as-wildcard cases (unspecified), RetryCount > 6 in the arithmetic kernel, ill-formed handler lists.",
+   design="4/C07"),
+ "C08": dict(
+   technique="symnum (z3 over reals, real code executed on symbolic numbers) for deadlines; CrossHair for RFC 3339 offsets; virtual-clock whole runs",
+   text=("The real asl_state_Wait and asl_state_Task_delegate are executed natively on symbolic instants (now, EnteredTime, StartTime, Seconds/Timestamp, TimeoutSeconds): the armed delay equals max(now, min(target, deadline)) - now and is never early, and the outcome (complete vs States.Timeout, task vs execution deadline) is the prescribed one - unsat on every path. "
+         "parse_rfc3339_datetime is decided for every offset +-hh:mm (symbolic 6-character offset) and the Z form; whole runs check exact terminal instants for reply-before/never and Catch cases."),
+   note="Trusted: symnum (floats as exact reals; IEEE rounding outside), recording shims for datetime in the parser kernel (cross-checked natively on 256 timestamps), SimBroker virtual clock. Unconstrained: ties target == deadline and events handled at/after the execution deadline.",
+   design="4/C08"),
+ "C09": dict(
+   technique="bounded whole-run model checking with a history monitor after every step (CrossHair + z3)",
+   text=("On every schedule of the scenario corpus (sequential, two concurrent executions, start routes, Parallel/Map with and without failures, Catch, Retry) the complete history is checked after every step: ids 1..n contiguous, previousEventId = id-1, non-decreasing timestamps, ExecutionStarted first with the input, "
+         "terminal iff exactly one ExecutionSucceeded/Failed that is last and agrees with the record, StateExited only after a matching StateEntered, EXPRESS stores nothing."),
+   note=S2NOTE, design="4/C09"),
+ "C10": dict(
+   technique="solver-enumerated call histories and argument combinations (CrossHair + z3 close the selector space) executed against the real handle_post of both front ends and compared with a map-based reference model after every call",
+   text=("Every response (status, __type, body) and the three stores are compared with a reference model after each call of all histories of <= 3 (quick) / <= 4 (thorough) calls and of single calls over the product of argument pools (names incl. symbolic strings, ARNs, definitions, roles, types, logging configurations, status filters, wrong JSON types, non-object bodies), on both the asyncio and the blocking front end. "
+         "Error responses must leave all stores deep-equal, no 5xx is admitted, a successful StartExecution publishes exactly one shared-queue start event carrying the returned ARN."),
+   note="Trusted: CrossHair/z3 for exhausting the selector space, vf/ref/api_model.py, fake request/jsonify, recording dispatcher; the payload is concrete on each path and the handler runs natively on it. Outside: Quart/Flask HTTP layer, pagination, Redis/JSON stores.",
+   design="4/C10"),
+ "C11": dict(
+   technique="bounded whole-run model checking with an agreement monitor after every step (CrossHair + z3)",
+   text=("After every scheduling step the DescribeExecution record, the latest status-change notification and the last history event must agree on status, input, output/error; subject is '<stateMachineArn>.<status>', the CloudWatch envelope is complete, each status is published once, notification dates are int(seconds*1000) while the stored record keeps float seconds; EXPRESS stores nothing."),
+   note=S2NOTE + " Redis-backed stores and two instances sharing a store are covered by C20's fake-Redis conditions, not here.", design="4/C11"),
+ "C12": dict(
+   technique="bounded symbolic execution (CrossHair + z3) of apply_path/apply_jsonpath/apply_resultpath/merge_result and the Pass handler against reference path semantics",
+   text=("Selector-built documents with symbolic member names and leaves: selection never modifies the document, '$'/null/'$$'/definite paths return exactly the addressed value, misses raise PathMatchFailure; placement yields a finite tree with get(put(d,p,r),p)==r and an unchanged frame, for dot/bracket/index write paths built from symbolic strings and for results that alias the input. "
+         "Two genuine defects were repaired (88753d8, 592d2e5); the null-document convention is a recorded known finding."),
+   note="Trusted: vf/ref/paths.py, memoised jsonpath.normalize for the concrete read paths. Outside: indefinite paths (wildcards, filters, slices), names outside the alphabet, documents deeper/wider than 3.",
+   design="4/C12"),
  "C14": dict(
    technique="bounded symbolic execution of the real Choice handler (CrossHair + z3), one condition per comparison operator",
    text=("Each of the 39 comparison operators, the *Path variants, And/Or/Not trees (depth <= 2) and rule ordering/Default/"
@@ -13,6 +78,12 @@ CHECKS = {
    note=("Trusted: CrossHair/z3, recording dispatcher stubs, constant json.dumps shim, clock/uuid stubs, the reference semantics in vf/ref/choice.py. "
          "Outside: longer strings, backslash before a non-'*' character in StringMatches patterns, type tests on a missing Variable."),
    design="4/C14"),
+ "C16": dict(
+   technique="CrossHair + z3 with unbounded symbolic sizes (opaque texts whose len() is a solver integer) at every enforcement point",
+   text=("Each limit site (state output in change_state for Pass/Task/Map, task reply in handle_rpcmessage_response, history length guard, name length) is executed for real with the JSON codec replaced by a shim returning a text of symbolic length n; accept/reject is compared with n <= L for all n >= 0, in both directions, including the error name. "
+         "Forbidden characters are decided over all names up to 3-4 characters. The terminal-state output gap is a recorded known finding."),
+   note="Trusted: the size shim ('the JSON text has n characters' is an assumption). Outside: byte vs character length of non-ASCII task replies. API-side limits (StartExecution input, definition size, SendTaskSuccess output) are exercised with concrete boundary sizes by C10/C15.",
+   design="4/C16"),
  "C17": dict(
    technique="bounded symbolic execution (CrossHair + z3) of create_arn/parse_arn/valid_name and the ARN minting/derivation sites",
    text=("Names are symbolic strings over an alphabet containing every ARN-significant and forbidden character; for every name the "
@@ -20,6 +91,11 @@ CHECKS = {
          "(start_execution, EXPRESS end_execution, history recovery, time-out back-stop, notifications) must arrive at the same state machine ARN."),
    note="Trusted: CrossHair/z3 regex and string models. Outside: names longer than the tier bound (3/4 characters); the parser is length-oblivious.",
    design="4/C17"),
+ "C19": dict(
+   technique="bounded symbolic execution (CrossHair + z3) of the real AMQP modules, EventDispatcher and TaskDispatcher over a recording fake of pika; differential blocking vs asyncio",
+   text=("Address parsing and declared frames for all engine-built address strings (classic/quorum) and grammar-generated addresses, message field round trips incl. the expiration clamp, acknowledge for unbounded delivery tags, transport parity, and the routing decisions of publish / rpcmessage / child executions are closed by the solver inside the bounds. One genuine defect (infinite expiration) was repaired (5d1112b)."),
+   note="Trusted: vf/fake_pika.py as the pika/AMQP contract. Outside: asyncio connection life-cycle under a real event loop, publisher confirms, real RabbitMQ; whole-run instance affinity is bounded to the scenarios of the S2 harness.",
+   design="4/C19"),
 }
 
 NOT_YET = {}
